@@ -45,8 +45,12 @@ def make_case(rng, i, tier):
         # that cancel (+w, -w); every single weight is non-zero and the path sum through the cycle is not
         w = rng.choice(["1/2", "1/4"])
         a0 = rng.choice(desc["syms"])
-        desc = {**desc, "start": desc["start"] + [["cp", w], ["cq", "-" + w]], "stop": desc["stop"] + [["cq", "1"]],
-                "arcs": desc["arcs"] + [["cp", "", "cq", "1/2"], ["cq", "", "cp", "1/4"]] + ([["cq", a0, "cq", "1/4"]] if rng.random() < 0.5 else [])}
+        if rng.random() < 0.5:   # entered from the start weights …
+            entry = {"start": desc["start"] + [["cp", w], ["cq", "-" + w]], "arcs": []}
+        else:                    # … or through ε arcs from one source state (the cancellation is inside the ε-graph)
+            entry = {"start": desc["start"] + [["cs", "1"]], "arcs": [["cs", "", "cp", w], ["cs", "", "cq", "-" + w]]}
+        desc = {**desc, "start": entry["start"], "stop": desc["stop"] + [["cq", "1"]],
+                "arcs": desc["arcs"] + entry["arcs"] + [["cp", "", "cq", "1/2"], ["cq", "", "cp", "1/4"]] + ([["cq", a0, "cq", "1/4"]] if rng.random() < 0.5 else [])}
         shape += "+cancelling_entry"
     maxlen = 3 if tier == "quick" else 4
     xs = [s for s in gen.all_strings(desc["syms"], 2)]
